@@ -20,7 +20,7 @@ import tok
 
 QS = configs.QUOTES + [["'", '"', "''", '""'], ["a", "b", "c", "d"], ["<q>", "</q>", "<s>", "</s>"]]
 SNIPPETS = ['"a" \'b\' ', '"foo *bar* baz" isn\'t ', '1"" x\'s "q\'q" ', "-- ... (c) (TM) +- ?!.... ,, --- a--b ",
-            "<http://a.b/'x'--y> ", "\"see `code` here\" and 'more' text ", "<first+-last@example.com> ", "'\"'\"' \"\"\" ",
+            "<http://a.b/'x'--y> ", "\"see `code` here\" and 'more' text ", "<first+-last@example.com> ", "<o'brien@example.com> ", "<dev--null@example.com> and <a...b@example.com> ", "<x,,y@example.com> <http://a.b/(c)...> ", "'\"'\"' \"\"\" ",
             "a\\\"b\\' &quot;c&#39; ", "[\"l\"](/u \"t'i\") ![\"alt\"](/i) ", "\"*'a'*\" <b>\"x\"</b> "]
 
 
@@ -39,18 +39,42 @@ def subst_ok(off: str, on: str, quotes) -> bool:
     return re.fullmatch(pat, on, flags=re.S) is not None
 
 
+def is_auto(t) -> bool:
+    return t.info == "auto" or t.markup in ("autolink", "linkify")
+
+
+def self_link(t, text: str) -> bool:
+    """<address> written as its own link text (URL or e-mail autolink)"""
+    from markdown_it.common.utils import unescapeAll  # noqa: F401
+    href = t.attrGet("href") or ""
+    if not text or " " in text:
+        return False
+    try:
+        from markdown_it.common import normalize_url
+        cands = {normalize_url.normalizeLink(text), normalize_url.normalizeLink("mailto:" + text)}
+    except Exception:  # noqa: BLE001
+        cands = {text, "mailto:" + text}
+    return href in cands and ("@" in text or ":" in text)
+
+
 def compare_streams(off, on, mode, quotes, path=""):
     if len(off) != len(on):
         return {"what": "number of tokens differs", "at": path, "off": [t.type for t in off], "on": [t.type for t in on]}
     inside_auto = 0
+    auto_depth = []
     for i, (a, b) in enumerate(zip(off, on)):
         if shape(a) != shape(b):
             return {"what": "token differs in something other than text content", "at": f"{path}[{i}]",
                     "off": a.as_dict(children=False), "on": b.as_dict(children=False)}
-        if a.type == "link_open" and a.info == "auto":
+        # an autolink is recognised by what it is, not only by the marker the rules themselves consult: info / markup say so, or
+        # the link text is the address itself
+        if a.type == "link_open" and (is_auto(a) or (i + 2 < len(off) and off[i + 1].type == "text" and off[i + 2].type == "link_close"
+                                                     and self_link(a, off[i + 1].content))):
             inside_auto += 1
-        if a.type == "link_close" and a.info == "auto":
+            auto_depth.append(a.level)
+        elif a.type == "link_close" and auto_depth and auto_depth[-1] == a.level:
             inside_auto -= 1
+            auto_depth.pop()
         if a.type == "text":
             if inside_auto and a.content != b.content:
                 return {"what": "autolink text rewritten", "at": f"{path}[{i}]", "off": a.content, "on": b.content}
